@@ -45,6 +45,11 @@ GridInit == /\ g \in [stm : {"w", "b"}, wtime : Times, btime : Times, winc : Inc
                   \cup UNION {[stm : {"b"}, btime : {t}, wtime : {0, 60000}, binc : Near(t), winc : {0, 1000}, order : SubOrders, mtg : {0}, mtgpos : {"back"}] : t \in Times}
                   \cup UNION {[stm : {"w"}, wtime : {t}, btime : {0, 60000}, winc : Near(t) \cup {0, 1000}, binc : {0, 1000}, order : FullOrders, mtg : MTG, mtgpos : Pos2] : t \in Times}
                   \cup UNION {[stm : {"b"}, btime : {t}, wtime : {0, 60000}, binc : Near(t) \cup {0, 1000}, winc : {0, 1000}, order : FullOrders, mtg : MTG, mtgpos : Pos2] : t \in Times}
+                  \* a clock that has run out as some GUIs report it: a NEGATIVE number of milliseconds (and a negative increment, which no GUI
+                  \* should send).  The most lenient reading there is: a negative clock is an expired clock - nothing may be budgeted from it.
+                  \cup [stm : {"w"}, wtime : {-1, -50}, btime : {0, 60000}, winc : {0, 1000, -7}, binc : {0, 1000}, order : FullOrders, mtg : {0}, mtgpos : {"back"}]
+                  \cup [stm : {"b"}, btime : {-1, -50}, wtime : {0, 60000}, binc : {0, 1000, -7}, winc : {0, 1000}, order : FullOrders, mtg : {0}, mtgpos : {"back"}]
+                  \cup [stm : {"w", "b"}, wtime : {4000, 60000}, btime : {4000, 60000}, winc : {-7}, binc : {-7}, order : FullOrders, mtg : {0}, mtgpos : {"back"}]
             /\ \A t \in TokenSet \ Present(g) : ValOf(g, t) = 0
 \* random go commands: clocks from a few magnitudes, increments anywhere between 0 and twice the clock
 \* (a parameter that depends on the state keeps TLC from evaluating the draw once and caching it as a constant)
@@ -85,8 +90,8 @@ FitsClock(own, budget) == budget >= 0 /\ budget <= own /\ (own > 0 => budget < o
 OwnClockOnly(obs) == \A a \in obs, b \in obs :
                        (a.stm = b.stm /\ a.own = b.own /\ a.inc = b.inc /\ a.mtg = b.mtg) => a.budget = b.budget
 
-ModelFits == ModelBudget(OwnTime(g), OwnInc(g)) >= 0 /\ ModelBudget(OwnTime(g), OwnInc(g)) <= OwnTime(g)
-             /\ (OwnTime(g) > 0 => ModelBudget(OwnTime(g), OwnInc(g)) < OwnTime(g))
+Pos0(x) == IF x < 0 THEN 0 ELSE x     \* what the code's parser makes of a negative number: the token fails to parse, the value stays 0
+ModelFits == LET own == Pos0(OwnTime(g))  b == ModelBudget(own, Pos0(OwnInc(g))) IN b >= 0 /\ b <= own /\ (own > 0 => b < own)
 EmitInv == (EmitOn /\ ~Random) => PrintT(<<"@@", ToJson([k |-> "go", text |-> GoText(g), stm |-> g.stm,
                                             go |-> [wtime |-> g.wtime, btime |-> g.btime, winc |-> g.winc, binc |-> g.binc, mtg |-> g.mtg]])>>)
 =============================================================================
